@@ -13,11 +13,7 @@ PY
   done); fi
 run_stream() {
   for n in "$@"; do
-    VERIF_MEM_GB=${VERIF_MEM_GB:-40} python3 lib/seed_eval.py $n --jobs 8 >> build/seed_all.log 2>&1
-    python3 - "seeded/$n/meta.json" "$head" <<'PY'
-import json,sys
-m=json.load(open(sys.argv[1])); m["evaluated_at_repo"]=sys.argv[2]; json.dump(m,open(sys.argv[1],'w'),indent=1)
-PY
+    VERIF_MEM_GB=${VERIF_MEM_GB:-40} python3 lib/seed_eval.py $n --jobs ${SEED_JOBS:-8} >> build/seed_all.log 2>&1
   done
 }
 a=(); b=(); i=0
